@@ -32,7 +32,7 @@ only the baseline UI failure, `demo.sh` exits 1 with the change and 0 without), 
 agent's `notes.md`, `meta.json`) and are part of the self-test catalogue of their property (`S-<id>`).
 
 **First runs: in rounds one and two 30 of 40 were reported by the check of their own property and 10 were not; in round three 7 of 40, in
-round four 6 of 40 and in round five 13 of 40 were not** (%d of %d in total; most of the round-five misses were slips in shared helpers -
+round four 6 of 40 and in round five 14 of 40 were not** (%d of %d in total; most of the round-five misses were slips in shared helpers -
 the sort a collector tags a variable with, a conversion impl, a traversal that skips one field - that the check of *another* property already
 caught). Every miss was a
 gap in a rule, not a limit of the technique, and each was closed by strengthening the rule (never by special-casing the change); after that
